@@ -340,7 +340,7 @@ def _from_bytes(bs, signed, big):
     size = len(bs)
     if not any(_isym(b) for b in bs):
         return int.from_bytes(bytes(bs), 'big', signed=signed)
-    if any(_isym(b) and not b.bv for b in bs):
+    if size >= 8 or any(_isym(b) and not b.bv for b in bs):
         p0 = getattr(bs[0], 'prov', None)
         if p0 is not None and p0[2] == size and all(
                 getattr(b, 'prov', None) is not None and b.prov[2] == size and b.prov[1] == size - 1 - i and b.prov[0].eq(p0[0])
